@@ -215,6 +215,12 @@ static void analyse(const std::string& st, Req outstanding, bool act, Req& surv,
 	}
 	if (round_open) { ++nrounds; if (!round_cancel) surv = round_req; }
 	leftover = outstanding;
+#ifndef REPORT_F9
+	// known finding F9 (known_findings.txt): a request to the destination of the *bare* transition accepted so far in the same step is
+	// dropped by applyRequest() without consulting guards.  The model follows the library here so that this recorded behaviour is not
+	// reported again as the reproduction of some other violation; build with -DREPORT_F9 to see it.
+	if (leftover.any && nrounds < LIMIT + (act ? 1 : 0) && surv.any && surv.dest == leftover.dest && surv.origin == -1 && !surv.has) leftover = Req{};
+#endif
 }
 
 static int active_now() { return inst->activeStateId() == INVALID_STATE_ID ? -1 : inst->activeStateId(); }
